@@ -8,7 +8,7 @@
 //   * then 4 threads insert a mix of present and absent keys concurrently: exactly one success per absent key (unique containers),
 //     find-after-insert, final size = number of elements on a traversal = expected, order / uniqueness again.
 // usage: life <kind oset|omset|omap|ommap|uset|umset|umap|ummap> <op> <seed>      prints `ok ...` or `VIOLATION ...` lines; exit 0/1
-//   op: copyctor movector copyassign moveassign-eq moveassign-neq moveassign-pocma swap clear-reuse
+//   op: copyctor movector copyassign moveassign-eq moveassign-neq moveassign-pocma swap swap-pocma clear-reuse merge merge-rvalue
 #include <oneapi/tbb/concurrent_set.h>
 #include <oneapi/tbb/concurrent_map.h>
 #include <oneapi/tbb/concurrent_unordered_set.h>
@@ -197,6 +197,25 @@ template <class CE, class CP, bool MULTI> static void scenario(const std::string
     else if (op == "moveassign-neq") { b = std::move(a); CHECK("move assignment (unequal, non-propagating allocators: element-wise)", b, ea, fa); HAMMER("move assignment (unequal allocators)", b, ea, seed);
                                        Expect e0; a.clear(); CHECK("moved-from container after clear()", a, e0, T::fx(a)); HAMMER("moved-from container", a, e0, seed); }
     else if (op == "swap") { a.swap(b); CHECK("swap: first", a, eb, fb); CHECK("swap: second", b, ea, fa); HAMMER("swap: first", a, eb, seed); HAMMER("swap: second", b, ea, seed + 1); }
+    else if (op == "merge" || op == "merge-rvalue") {
+        // merge from a source of the SAME type whose functors are in a different state: the merged elements must be placed by the destination's
+        // functors (order / hash / equivalence); what the destination refuses (unique containers: an equivalent key is present) stays in the source
+        if (op == "merge") a.merge(b); else a.merge(std::move(b));
+        // which of several source keys of one class is taken depends on the source's iteration order: the expectations are stated on what is there
+        Expect ea2, eb2;
+        for (auto it = a.begin(); it != a.end(); ++it) ea2.keys.insert(key_of(*it));
+        for (auto it = b.begin(); it != b.end(); ++it) eb2.keys.insert(key_of(*it));
+        std::multiset<Key> all_before(ea.keys), all_after(ea2.keys);
+        all_before.insert(eb.keys.begin(), eb.keys.end()); all_after.insert(eb2.keys.begin(), eb2.keys.end());
+        if (all_before != all_after) violation("merge(): the elements of destination and source together are not what they were before (lost or duplicated)");
+        for (Key k : ea.keys) if (!ea2.keys.count(k)) { violation("merge(): the destination lost its own key " + std::to_string(k)); break; }
+        std::set<Key> classes;
+        for (Key k : ea2.keys) classes.insert(cls(fa, k, T::ordered));
+        if (MULTI) { if (!eb2.keys.empty()) violation("merge() into a multi container left " + std::to_string(eb2.keys.size()) + " elements in the source"); }
+        else for (Key k : eb2.keys) if (!classes.count(cls(fa, k, T::ordered))) { violation("merge(): key " + std::to_string(k) + " stayed in the source although the destination holds no equivalent key"); break; }
+        CHECK("destination of merge()", a, ea2, fa); CHECK("source of merge()", b, eb2, fb);
+        HAMMER("destination of merge()", a, ea2, seed); HAMMER("source of merge()", b, eb2, seed + 5);
+    }
     else if (op == "clear-reuse") { a.clear(); Expect e0; CHECK("after clear()", a, e0, fa); FILL(a, e0, fa, kb); CHECK("refilled after clear()", a, e0, fa); HAMMER("refilled after clear()", a, e0, seed); }
 }
 
